@@ -169,6 +169,22 @@ def run(cap):
                     r2 = g12up[sel] / region.g12.centre[sel]
                     upd("disp:sign+size g_12~e_x.e_y (|tan beta|>=0.3)", np.abs(r1 - 1.0), region, "centre")
                     upd("disp:sign+size g12~grad(x).grad(y) (|tan beta|>=0.3)", np.abs(r2 - 1.0), region, "centre")
+        # ---- (d'') hy at the y-faces = distance between the neighbouring cell centres per dy, the first
+        # face of a region with a lower neighbour included (centre of the neighbour's last cell)
+        if not np.all(region.hy.ylow == 0):
+            Rc, Zc = region.Rxy.centre, region.Zxy.centre
+            Rf, Zf = region.Rxy.ylow, region.Zxy.ylow
+            # two chords through the face point (half the turning angle per chord: the chord/arc error
+            # is a quarter of that of the straight line between the centres)
+            cc = (np.hypot(Rf[:, 1:-1] - Rc[:, :-1], Zf[:, 1:-1] - Zc[:, :-1]) + np.hypot(Rc[:, 1:] - Rf[:, 1:-1], Zc[:, 1:] - Zf[:, 1:-1])) / dy[:, 1:]
+            okf = ok[:, 1:] & ok[:, :-1]
+            upd("disp:hy_ylow~|centre to centre| (interior faces)", np.where(okf, np.abs(cc / region.hy.ylow[:, 1:-1] - 1.0), 0.0), region, "ylow")
+            lid = region.connections["lower"]
+            if lid is not None:
+                lr = mesh.regions[lid]
+                c0 = (np.hypot(Rf[:, 0] - lr.Rxy.centre[:, -1], Zf[:, 0] - lr.Zxy.centre[:, -1]) + np.hypot(Rc[:, 0] - Rf[:, 0], Zc[:, 0] - Zf[:, 0])) / dy[:, 0]
+                okj = ok[:, 0] & ~xpoint_cells(lr)[:, -1]
+                upd("disp:hy_ylow~|centre to centre| (first face after a join)", np.where(okj, np.abs(c0 / region.hy.ylow[:, 0] - 1.0), 0.0), region, "ylow")
         # ---- (d') the same at the interior y-faces: e_x from the corner points, e_y from centres ----
         if not orth and region.ny >= 2 and not np.all(region.g_11.ylow == 0):
             dxy = region.dx.ylow[:, 1:-1]
@@ -223,6 +239,7 @@ def run(cap):
         "orthogonal:": 0.0,
         "I=0": 0.0,
         "disp:g_11": 0.35,
+        "disp:hy_ylow": 0.15,
         "disp:hy": 0.2,
         "disp:e_x.e_y~0": 0.4,
         "disp:sign+size": 0.4,
